@@ -197,3 +197,69 @@ for _fn, _end in (('EDATE', False), ('EOMONTH', True)):
                      else 'keeping the day of the month, clipped to the month\'s end') + '; #NUM! exactly when the result lies before 1900-01-01 (serial 1)',
                     lambda s, m: True, _moved_ens(_end))],
         canary=Case('canary', lambda s, m: True, (lambda e: lambda s, m, out: _moved_ens(not e)(s, m, out))(_end)), timeout_ms=60000))
+
+
+# ---- DATEDIF D / M / Y on the exact calendar ----------------------------------------------------------------------------------------------------
+# complete months between two dates: a month counts once the start's day of the month is reached again; complete years = complete months // 12;
+# days = difference of the ordinals - for EVERY ordered pair of dates from 1900-03-01 on.  The reference is written over the calendar fields
+# of the two ORDINALS (tied to them by the calendar axiom), not over what the code computed on the way.
+def _ord_of(d):
+    return d.value.ord if isinstance(d.value, MD.SymDateTime) else d.value.toordinal()
+
+
+def _datedif_ref(unit, s, e):
+    so, eo = _ord_of(s), _ord_of(e)
+    if unit == 'D':
+        return eo - so
+    sy, sm, sd = MD.YEAR_OF(so), MD.MONTH_OF(so), MD.DAY_OF(so)
+    ey, em, ed = MD.YEAR_OF(eo), MD.MONTH_OF(eo), MD.DAY_OF(eo)
+    months = (ey - sy) * 12 + em - sm - Ite(ed < sd, 1, 0)
+    if unit == 'M':
+        return months
+    return S.arith(S.ast.FloorDiv, months, 12) if is_sym(months) else months // 12
+
+
+for _u in ('D', 'M', 'Y', 'm', 'y'):
+    UNITS.append(Unit(
+        id=f'C18/date.DATEDIF[{_u}]/exact_calendar', target='xlcalculator.xlfunctions.date:DATEDIF',
+        inputs=[('start', XlDate()), ('end', XlDate()), ('unit', Const(_u, f'unit "{_u}"'))],
+        requires=lambda s, e, u: And(_ord_of(s) >= EPOCH_ORD + 59, _ord_of(s) <= _ord_of(e)),
+        cases=[Case('DATEDIF gives the days (D), the complete months (M: a month counts once the day of the month is reached again) and the complete '
+                    'years (Y) between two dates', lambda *a: True,
+                    (lambda u_: lambda s, e, u, out: spec.numeric_result(out, _datedif_ref(u_.upper(), s, e)))(_u))],
+        canary=Case('canary', lambda *a: True, (lambda u_: lambda s, e, u, out: spec.numeric_result(out, _datedif_ref(u_.upper(), s, e) + 1))(_u)),
+        timeout_ms=60000))
+
+
+# ---- DATE on the exact calendar: months and days far outside their ranges are carried into the next units ---------------------------------------
+def _date_ref(y, m, d):
+    yy = Ite(y < 1900, y + 1900, y)
+    idx = _z(yy) * 12 + _z(m) - 1
+    Y, Mo = idx / 12, idx % 12 + 1
+    return Y, MD.z_ord(Y, Mo, z3.IntVal(1)) + _z(d) - 1
+
+
+def _date_req(y, m, d):
+    Y, o = _date_ref(y.value, m.value, d.value)
+    return And(y.value >= 0, y.value <= 9999, _zb(z3.And(Y >= 1, Y <= 9999, o >= MD.MIN_ORD, o <= MD.MAX_ORD)))
+
+
+def _date_ens(y, m, d, out):
+    Y, o = _date_ref(y.value, m.value, d.value)
+    before = _zb(o < EPOCH_ORD)
+    if out.kind != 'ret':
+        return False
+    if isinstance(out.value, spec.E().ExcelError):
+        return And(before, isinstance(out.value, spec.E().NumExcelError))
+    ser, sec = _res_serial(out.value)
+    return And(Not(before), spec.num_eq(ser, _zn(_serial_z(o))), spec.eq(sec, 0))
+
+
+UNITS.append(Unit(
+    id='C18/date.DATE/exact_calendar', target='xlcalculator.xlfunctions.date:DATE',
+    inputs=[('year', Xl('Number', 'int', domain=[2024, 1900, 99, 9999])), ('month', Xl('Number', 'int', domain=[2, 14, 0, -11, 120])),
+            ('day', Xl('Number', 'int', domain=[29, 0, 31, 400, -5]))], requires=_date_req,
+    cases=[Case('DATE(y, m, d) is day d of month m of year y (two-digit-style years below 1900 count from 1900), months and days outside their ranges '
+                'carried into the next units in either direction; #NUM! exactly when the result lies before 1900-01-01',
+                lambda *a: True, _date_ens)],
+    timeout_ms=60000))
